@@ -398,6 +398,18 @@ def replay_eval(pid, d):
     if not inp:
         print('replay file carries no concrete input (correspondence failure)')
         return 0
+    if pid == 'C20':
+        import sitelogs
+        from pokerkit import HandHistory
+        site, text = inp[1], inp[2]
+        print(f'replaying a stored {site} log through the real importer')
+        import warnings as _w
+        with _w.catch_warnings(record=True) as rec:
+            _w.simplefilter('always')
+            got = list(getattr(HandHistory, sitelogs.IMPORTERS[site])(text))
+        print('imported:', [(h.players, h.actions) for h in got][:1], 'warnings:', [str(w.message)[:80] for w in rec][:2])
+        print('reproduced: property=C20 (compare with the detail recorded in the replay file)')
+        return 1
     if pid == 'C18':
         import analysis_check as ac
         msg = ac.replay(inp)
@@ -564,6 +576,66 @@ def decide_c18(pid, spec, tier, seed, theorems, t0):
     return rc
 
 
-for _pid, _fn in (('C04', decide_c04), ('C05', decide_c05), ('C19', decide_c19), ('C18', decide_c18)):
+def _c20_part(args):
+    import sitelogs
+    return sitelogs.check_site_logs(*args)
+
+
+def decide_c20(pid, spec, tier, seed, theorems, t0):
+    from concurrent.futures import ProcessPoolExecutor
+    k = 16 * (6 if tier == 'thorough' else 1)
+    known = fw.load_known()
+    with ProcessPoolExecutor(max_workers=16) as ex:
+        rs = list(ex.map(_c20_part, [(seed * 1000 + j, 25) for j in range(k)]))
+    viols_all = [v for r in rs for v in r['viols']]
+    diffs = [d for r in rs for d in r['diffs']]
+    count = sum(r['count'] for r in rs)
+    dist = Counter()
+    for r in rs:
+        dist.update(r['dist'])
+    matched, viols = {}, []
+    for v in viols_all:
+        kf = fw.match_known(v, known)
+        if kf is None:
+            viols.append(v)
+        else:
+            matched.setdefault(kf['id'], (kf, v))
+    rc = 0
+    if viols:
+        v = viols[0]
+        replay = fw.write_replay(pid, seed, dict(kind='violation', property=pid, clause=v['clause'],
+                                                  signature=v['signature'], detail=v['detail'], input=v['input']))
+        print(f'VIOLATION property={pid} replay={replay}')
+        rc = 1
+    elif diffs:
+        replay = fw.write_replay(pid, seed, dict(kind='correspondence', property=pid,
+                                                  theorems_no_longer_tied=[n for n, _ in theorems],
+                                                  first_difference=diffs[0], searched_inputs=count))
+        print(f'VIOLATION property={pid} replay={replay} no-failing-input-found')
+        rc = 1
+    _print_known(matched)
+    unparsed = {k_: v_ for k_, v_ in dist.items() if k_.endswith(':unparsed')}
+    wall = time.time() - t0
+    cov = dict(obligations=len(theorems), discharged=len(theorems),
+               checker_cmd=f'cd lean && lake build PK && lake env lean PK/Audit/{pid}.lean',
+               trusted_base=fw.TRUSTED_BASE, theorems=[dict(name=n, axioms=ax) for n, ax in theorems],
+               evaluations=count, distinct_nontrivial=count,
+               rule='no-limit hold\'em hands (2-6 players, sparse seats, any button, limps, raises, limp-reraises, all-ins, showdowns) '
+                    'played on the real engine and rendered as text in the six site formats from templates written against the '
+                    'importers\' own patterns; the real importer is run on every text; action extraction compared with the Lean model, '
+                    'the imported history with the hand that was rendered',
+               correspondence=dict(rendered_logs=count, differences=len(diffs)),
+               monitor=dict(violations_new=len(viols), known_findings=sorted(matched)), distribution=dict(dist), samples=[])
+    fw.write_evidence(pid, tier, seed, cov, [
+        'the regular-expression layer is NOT modelled: it is exercised only through the rendered texts',
+        'the site formats are reconstructed from the patterns and two examples; no site corpus is available offline',
+        f'logs the importer rejected (reported, hence acceptable for the property): {unparsed or "none"}',
+    ], wall, len(viols) + (1 if rc and not viols else 0))
+    print(f'{pid}: theorems={len(theorems)} logs={count} diffs={len(diffs)} spec_violations(new/known)={len(viols)}/{len(matched)} '
+          f'wall={wall:.1f}s -> {"FAIL" if rc else "ok"}')
+    return rc
+
+
+for _pid, _fn in (('C04', decide_c04), ('C05', decide_c05), ('C19', decide_c19), ('C18', decide_c18), ('C20', decide_c20)):
     if os.path.exists(os.path.join(fw.LEAN, 'PK', 'Audit', f'{_pid}.lean')):
         PROPS[_pid] = dict(kind='eval', decide=_fn, monitors=[])
